@@ -5,10 +5,11 @@
 # patched worktree. On success copies the seed to /verif/seeded/<ID>-<letter>/ and prints one RESULT line.
 set -u
 id=$1; l=$2; tier=${3:-quick}
-src=/tmp/seed-$id/SEED/$l
+src=${SEEDROOT:-/tmp/seed}-$id/SEED/$l
+tag=${SEEDTAG:-}
 export GOFLAGS=-mod=mod GOPROXY=off
 [ -f "$src/patch.diff" ] || { echo "RESULT $id-$l NO-PATCH"; exit 2; }
-wt=/tmp/wt-seed-$id-$l
+wt=/tmp/wt-seed-$id-$tag$l
 git -C /repo worktree remove --force "$wt" >/dev/null 2>&1
 git -C /repo worktree add --detach "$wt" HEAD >/dev/null 2>&1 || { echo "RESULT $id-$l WORKTREE-FAILED"; exit 2; }
 trap 'git -C /repo worktree remove --force "$wt" >/dev/null 2>&1' EXIT
@@ -49,9 +50,9 @@ out=$(VERIF_REPO="$wt" ./vcheck "$id" "$tier" 2>&1); rc=$?
 nv=$(echo "$out" | grep -c '^VIOLATION')
 verdict=MISSED; [ $rc -eq 1 ] && [ "$nv" -gt 0 ] && verdict=CAUGHT; [ $rc -eq 2 ] && verdict=HARNESS-ERROR
 first=$(echo "$out" | grep '^VIOLATION' | head -1 | sed 's/.*key=//' | cut -c1-260)
-echo "RESULT $id-$l $verdict demo_without=$([ $without -eq 0 ] && echo pass || echo FAIL) demo_with=$([ $with -ne 0 ] && echo fail || echo PASS) repo_tests=$([ $tests -eq 0 ] && echo pass || echo FAIL) violations=$nv :: $first"
+echo "RESULT $id-$tag$l $verdict demo_without=$([ $without -eq 0 ] && echo pass || echo FAIL) demo_with=$([ $with -ne 0 ] && echo fail || echo PASS) repo_tests=$([ $tests -eq 0 ] && echo pass || echo FAIL) violations=$nv :: $first"
 if [ $without -eq 0 ] && [ $with -ne 0 ] && [ $tests -eq 0 ]; then
-  d=/verif/seeded/$id-$l; mkdir -p $d; cp "$src/patch.diff" $d/; rm -rf $d/demo; cp -r "$src/demo" $d/
+  d=/verif/seeded/$id-$tag$l; mkdir -p $d; cp "$src/patch.diff" $d/; rm -rf $d/demo; cp -r "$src/demo" $d/
   python3 - "$src/meta.json" "$d/meta.json" "$id" "$verdict" "$tier" "$first" <<'PY'
 import json,sys
 try: m=json.load(open(sys.argv[1]))
